@@ -260,7 +260,23 @@ func checkC16(r *Result) []Violation {
 			}
 		}
 		n := len(pubs)
-		feat := []string{"end", wc.endKind, "delay", fmt.Sprint(wc.delay > 0), "ver", verClass(c.Ver)}
+		// is a delayed will involved at all? "own": this will was sent with a Will Delay Interval; "same-id": another
+		// connection with this client id had one (delayed wills are kept per client id); "none".
+		delayed := "none"
+		if wc.origDelay > 0 {
+			delayed = "own"
+		} else {
+			for _, c2 := range r.Ex.Conns {
+				cp2 := connectPkt(c2, r)
+				if c2 == c || cp2 == nil || cp2.ClientID != c.CID || cp2.Will == nil || c2.Ver != 5 {
+					continue
+				}
+				if p, ok := cp2.Will.Props.Get(refcodec.PWillDelay); ok && p.Int > 0 {
+					delayed = "same-id"
+				}
+			}
+		}
+		feat := []string{"end", wc.endKind, "delay", fmt.Sprint(wc.delay > 0), "ver", verClass(c.Ver), "delayed", delayed}
 		if wc.overlap || wc.endKind == "" {
 			// overlapping causes: only the upper bound can be judged
 			if n > 1 {
